@@ -6,11 +6,16 @@ package main
 // the join.
 
 import (
+	"fmt"
+	"os"
 	"runtime"
 	"sync"
+	"time"
 
 	rt "github.com/cloudspannerecosystem/memefish/verifsimrt"
 )
+
+const burstHang = 20 * time.Second
 
 type burstTask struct {
 	plan     *TaskPlan
@@ -68,7 +73,18 @@ func execBurst(plan *Plan, refs *refTable) *runResult {
 		}(i, bt)
 	}
 	close(start)
-	wg.Wait()
+	// a burst takes milliseconds; one that does not finish is a hang of the library under
+	// real threads (deadlock / livelock): dump all stacks for the driver and give up
+	joined := make(chan struct{})
+	go func() { wg.Wait(); close(joined) }()
+	select {
+	case <-joined:
+	case <-time.After(burstHang):
+		buf := make([]byte, 1<<20)
+		n := runtime.Stack(buf, true)
+		fmt.Fprintf(os.Stderr, "BURST-HANG after %v\n%s\n", burstHang, buf[:n])
+		os.Exit(67)
+	}
 	// oracles after the join
 	for id, bt := range tasks {
 		t := &task{id: id, plan: bt.plan}
